@@ -1,6 +1,7 @@
 import Exetera.Lemmas.DatesDays
 import Exetera.Lemmas.DatesPeriods
 import Exetera.Lemmas.DatesMap
+import Exetera.Lemmas.DatesPipeline
 /-!
 # C20 — date helpers bucket timestamps into the day and the period that contain them
 
@@ -158,6 +159,14 @@ example : offsetMap [432000, 1036800, 1641600, 2246400] =
     .ok [0, 0, 0, 0, 0, 0, 0, 1, 1, 1, 1, 1, 1, 1, 2, 2, 2, 2, 2, 2, 2] := by rfl
 example : Ascending [432000, 1036800, 1641600, 2246400] := by unfold Ascending; decide
 
+/-- for ascending boundaries a value lies in at most one half-open period, so "the period containing it" is well defined
+    (used for day offsets above and for timestamps below). -/
+theorem period_unique {bs : List Int} (hasc : Ascending bs) {k k' : Nat} {x : Int}
+    (h : InPeriod bs k x) (h' : InPeriod bs k' x) : k = k' :=
+  inPeriod_unique hasc h h'
+
+example : InPeriod [0, 7, 7, 14] 2 9 := ⟨7, 14, rfl, rfl, by decide, by decide⟩
+
 /-! ## get_period_offsets -/
 
 /-- `period_offsets_eq`: with an `in_range` array (`bool`, or `int8` where non-zero means in range) of the right length, if every
@@ -189,5 +198,57 @@ theorem period_offsets_all (pbd days : List Int)
   lookupAll_spec pbd days hin
 
 example : getPeriodOffsets [0, 0, 0, 1, 1, 1, 2] [3, 6, 0] none = .ok [1, 2, 0] := by rfl
+
+/-! ## the four helpers together
+
+`bucket ts filt ps` is the documented use: `days, in_range = get_days(ts, filter, ps[0], ps[-1])` followed by
+`get_period_offsets(generate_period_offset_map(ps), days, in_range)`; `pipeline` first obtains `ps` from `get_periods`
+(reversing a backwards-generated list into ascending order). Timestamps and boundaries live on one integer time axis. -/
+
+/-- C20 end to end, for any ascending boundaries that are whole days apart: the call returns one offset per row; a row that
+    passes the filter and whose timestamp lies in the half-open period `[ps[k], ps[k+1])` gets `k`; a row that is filtered out,
+    or whose timestamp lies in no period, gets −1. -/
+theorem bucket_correct {ts : List Int} {filt : Option (List Int)} {ps : List Int} (hne : ps ≠ [])
+    (hasc : Ascending ps) (hal : DayAligned ps) (hlen : ∀ f, filt = some f → f.length = ts.length) :
+    ∃ out, bucket ts filt ps = .ok out ∧ out.length = ts.length ∧
+      ∀ (i : Nat) (t : Int), ts[i]? = some t →
+        (∀ k : Nat, passes filt i = true → InPeriod ps k t → out[i]? = some (k : Int)) ∧
+        ((passes filt i = false ∨ ∀ k, ¬ InPeriod ps k t) → out[i]? = some (-1)) :=
+  bucket_spec hne hasc hal hlen
+
+example : bucket [5, 86400, 700000, 1209599, 1209600, -1] (some [1, 1, 1, 0, 1, 1]) [0, 604800, 1209600] =
+    .ok [0, 0, 1, -1, -1, -1] := by rfl
+example : Ascending [0, 604800, 1209600] ∧ DayAligned [0, 604800, 1209600] := by
+  refine ⟨by unfold Ascending; decide, ?_⟩
+  intro first h p hp
+  simp only [List.head?_cons, Option.some.injEq] at h
+  subst h
+  simp only [List.mem_cons, List.not_mem_nil, or_false] at hp
+  rcases hp with rfl | rfl | rfl <;> decide
+
+/-- … and with the boundaries coming from `get_periods` (either sign of `delta`, days or weeks, any valid range including one
+    shorter than a period or touching `datetime.min`/`datetime.max`): every step of the pipeline returns, and each row gets the
+    index of the generated period that contains its timestamp, or −1. `ascBoundaries start step n` is
+    `start, start+step, …, start+n·step` put into ascending order. -/
+theorem pipeline_correct {ts : List Int} {filt : Option (List Int)} {start end_ : Int} {period : String} {delta u : Int}
+    (hu : unitDays period = some u) (hdelta : delta ≠ 0)
+    (hdir : (0 < delta → start ≤ end_) ∧ (delta < 0 → end_ ≤ start))
+    (htd : (delta * u).natAbs ≤ TD_MAX_DAYS)
+    (hs : 0 ≤ start ∧ start ≤ DT_MAX) (he : 0 ≤ end_ ∧ end_ ≤ DT_MAX)
+    (hlen : ∀ f, filt = some f → f.length = ts.length) :
+    ∃ out, pipeline ts filt start end_ period delta = .ok out ∧ out.length = ts.length ∧
+      ∀ (i : Nat) (t : Int), ts[i]? = some t →
+        (∀ k : Nat, passes filt i = true →
+          InPeriod (ascBoundaries start (delta * u * 86400) ((end_ - start).natAbs / (delta * u * 86400).natAbs)) k t →
+          out[i]? = some (k : Int)) ∧
+        ((passes filt i = false ∨ ∀ k,
+          ¬ InPeriod (ascBoundaries start (delta * u * 86400) ((end_ - start).natAbs / (delta * u * 86400).natAbs)) k t) →
+          out[i]? = some (-1)) :=
+  pipeline_spec hu hdelta hdir htd hs he hlen
+
+example : pipeline [5, 86400, 700000, 1209599, 1209600, -1] none 1209600 0 "week" (-1) = .ok [0, 0, 1, 1, -1, -1] := by rfl
+example : ascBoundaries 1209600 (-1 * 7 * 86400) ((0 - 1209600 : Int).natAbs / (-1 * 7 * 86400 : Int).natAbs) =
+    [0, 604800, 1209600] := by rfl
+example : pipeline [7, 8] none 1000 1000 "day" 1 = .ok [-1, -1] := by rfl
 
 end Exetera.Props.C20
